@@ -63,7 +63,7 @@ def run(res):
     prove_obligations(res, THEOREMS.get("C10", []))
     cases = corpus_cases() + c01_cases(rng, 40000 if thorough else 2500, max_n=300)
     cases += c01_cases(rng, 1500 if thorough else 300, max_n=2500, shapes=["sorted_dups", "sparse", "clusters", "lattice", "two_lattices", "small"])
-    cases += quantile_outlier_cases(rng, 40 if thorough else 6) + repeated_lattice_cases(rng, 40 if thorough else 4)
+    cases += quantile_outlier_cases(rng, 40 if thorough else 6) + repeated_lattice_cases(rng, 40 if thorough else 4) + [deep_huffman_case(8, rng)]
     out = pl.run_pipeline(res, cases, want_model_reader=False, want_writer=False)
     fbad, sbad, pbad = [], [], []
     hq, hmeta = [], []
